@@ -24,6 +24,9 @@ MEMBERS = [
     '~id:m0~ $[*][ stop(symks() == line_number()) symkf.nocontrib() == line_number() -> fail() gt(line_number(), symt()) '
     'print("m0 at $.csvpath.line_number") @v = line_number() ]',
     '~id:m1 unmatched-mode:keep~ $[*][ push("s", line_number()) gt(line_number(), symt()) symke.nocontrib() == line_number() -> mod(1, 0) ]',
+    # a member whose scan ends before the file does, and a member that is switched off
+    '~id:m2~ $[1-2][ yes() ]',
+    '~id:m3 run-mode: no-run~ $[*][ yes() print("m3 ran") ]',
 ]
 ND = kitpaths.NDATA
 RECORDS = [r for r in csv.reader(io.StringIO(kitpaths.DATA))]
@@ -138,7 +141,7 @@ ENC = ["csvpath/managers/results/results_manager.py:ResultsManager.start_run/add
     "O1-archive-truthful",
     pre=["{LO} <= ks <= {HI} and {LO} <= kf <= {FHI} and {LO} <= t <= {HI} and {LO} <= ke <= {HI}"],
     post="_ == ''",
-    bound="group of 2 members (one with unmatched-mode keep) over a 5-record file with quoted delimiter and embedded newline; stop "
+    bound="group of 4 members (one with unmatched-mode keep, one with a scan ending before the file, one with run-mode no-run) over a 5-record file with quoted delimiter and embedded newline; stop "
     "line ks, fail line kf, match threshold t, error line ke symbolic LO..HI (shards fix some of them); run method per shard; read "
     "back: run manifest status/all_valid/all_completed/error_count, member meta/vars/errors/manifest, vars.json = variables, "
     "errors.json = errors, printouts.txt = printouts, data.csv/unmatched.csv parse to the expected lines, fingerprints = sha256 of "
@@ -175,9 +178,11 @@ def archive_truthful(method: str, ks: int, kf: int, t: int, ke: int) -> str:
         if man.get("error_count") != sum(len(r.errors) for r in results):
             out.append("error_count != sum of members' errors")
         collecting = method in COLLECTING
-        if len(results) != 2:
+        if len(results) != 4:
             out.append(f"{len(results)} results")
         else:
+            _check_member(run_dir, results[2], collecting, [1, 2], None, out)
+            _check_member(run_dir, results[3], collecting, [], None, out)
             _check_member(run_dir, results[0], collecting, m0, None, out)
             # breadth-first runs do not keep unmatched lines (next_by_line drives _consider_line itself): nothing to compare there
             _check_member(run_dir, results[1], collecting, m1, um1 if method == "collect_paths" else None, out)
